@@ -422,6 +422,45 @@ def rule_g(ctx: Ctx, env: EnvA):
            construct=f"{sl.fi.qualname}:wait-column")
 
 
+def rule_h(ctx: Ctx, env: EnvA):
+    """C02.h the automatic time advance after a step runs exactly for unfinished rows whose freshly computed mask has no
+    open column: (no action, unfinished) -> advance (else an all-masked row is handed to the policy); (some action) ->
+    do not advance (a finished row always has its wait column open, so advancing it would never end the loop)."""
+    sl = env.slot("_step")
+    calls = [e for e in sl.it.events if e.kind == "call-enter" and e.data.name.endswith("._check_step_complete")]
+    if not calls:
+        raise AnalysisError(f"{env.name}._step: _check_step_complete not called")
+    for i, e in enumerate(calls):
+        fr = e.data
+        dn = fr.locals.get("dones")
+        if not isinstance(fr.ret, vg.S) or not isinstance(dn, vg.S):
+            raise AnalysisError(f"{env.name}._check_step_complete: unexpected shape")
+        dn_ids = {dn.id, nf.strip(dn, True).id}
+        # td['action_mask'] read after td.set('action_mask', self.get_action_mask(td)) is the value returned by the mask function
+        mask_ids = {x.data.ret.id for x in sl.it.events if x.kind == "call-exit" and x.data.name.endswith(".get_action_mask") and isinstance(x.data.ret, vg.S)}
+
+        def is_mask(x):
+            return "action_mask" in vg.cells_of(x) or any(y.id in mask_ids for y in vg.walk(x))
+
+        def table(m, d):
+            def assume(n):
+                if n.id in dn_ids:
+                    return d
+                if nf._fn(n) == "einops.reduce" and any(vg.is_const(x, "any") for x in n.args[1:]) and is_mask(n.args[1]):
+                    return m
+                if n.op == "meth" and n.args[1] == "any" and is_mask(n.args[0]):
+                    return m
+                return None
+            return nf.kleene(fr.ret, assume)
+
+        want = {(False, False): True, (True, False): False, (True, True): False}
+        got = {k: table(*k) for k in want}
+        bad = [f"open={k[0]},done={k[1]} -> {got[k]}" for k in want if got[k] is not want[k]]
+        ctx.ob("C02.h", f"{env.name}._step:auto-advance:{i}", not bad, sl.where,
+               "advance iff (no open column and unfinished)" + (f"; violated for {bad}" if bad else ""),
+               construct=f"{env.name}._check_step_complete:{i}")
+
+
 def run(ctx: Ctx):
     rule_f(ctx)
     for cname, path in T.ALL_ENVS.items():
@@ -438,6 +477,7 @@ def run(ctx: Ctx):
         if cname in ("FJSPEnv", "JSSPEnv"):
             rule_d(ctx, env)
             rule_g(ctx, env)
+            rule_h(ctx, env)
     rule_e(ctx)
 
 
